@@ -39,6 +39,7 @@ func main() {
 		replayF  = flag.String("replay", "", "replay file to re-run")
 		selftest = flag.Bool("canary", true, "run vacuity canaries")
 		genOpts  = flag.Bool("gen-options", false, "print the generated contract section for vflow.Options (C17)")
+		multi    = flag.String("multi", "", "comma separated property ids: verify the union of their functions once and print one verdict line per property (development, matrices)")
 		genNames = flag.Bool("gen-names", false, "rewrite the `names` line of every function contract in the hook files from the current source")
 		rf       = flag.Bool("rf", false, "development: replay failed obligations")
 	)
@@ -92,6 +93,14 @@ func main() {
 			os.Exit(1)
 		}
 		return
+	}
+	if *multi != "" {
+		specs, err := loadPropSpecs(filepath.Join(*verif, "properties.map.json"))
+		if err != nil {
+			fmt.Fprintln(os.Stderr, "govc:", err)
+			os.Exit(2)
+		}
+		os.Exit(r.checkMulti(specs, strings.Split(*multi, ",")))
 	}
 	if *prop == "" {
 		fmt.Fprintln(os.Stderr, "govc: -property or -funcs required")
@@ -506,4 +515,103 @@ func (w *World) verifiedInPlace(key string, verified map[string]bool, seen map[s
 		}
 	}
 	return len(w.callers[key]) > 0
+}
+
+// checkMulti verifies the union of the functions, lemmas and grounds of several properties in one run and
+// attributes every failure to the properties whose map entry covers it. Known findings are not failures.
+func (r *Runner) checkMulti(specs map[string]*PropSpec, ids []string) int {
+	union := &PropSpec{ID: "multi"}
+	seenF, seenL, seenG := map[string]bool{}, map[string]bool{}, map[string]bool{}
+	owner := map[string]map[string]bool{} // function key / "lemma.x" / ground context -> properties
+	add := func(k, id string) {
+		if owner[k] == nil {
+			owner[k] = map[string]bool{}
+		}
+		owner[k][id] = true
+	}
+	groundCtx := map[string]string{"infomodel": "ipfix.InfoModel", "jsonshape": "sflow.jsonshape", "guarded": "guarded", "cachetypes": "cachetypes", "fnvkey": "ipfix.cachekey", "options": "vflow.options"}
+	for _, id := range ids {
+		sp := specs[id]
+		if sp == nil {
+			continue
+		}
+		for _, f := range sp.Funcs {
+			if !seenF[f] {
+				seenF[f] = true
+				union.Funcs = append(union.Funcs, f)
+			}
+			keys := []string{f}
+			if r.w.FuncDecls[f] == nil {
+				keys = r.resolveFuncs(f)
+			}
+			for _, k := range keys {
+				add(shortKey(k), id)
+				if p := r.w.FuncPkg[k]; p != nil {
+					add(shortKey(p.PkgPath)+".globals", id)
+				}
+			}
+			if len(keys) == 0 {
+				add(f, id)
+			}
+		}
+		for _, l := range sp.Lemmas {
+			if !seenL[l] {
+				seenL[l] = true
+				union.Lemmas = append(union.Lemmas, l)
+			}
+			add("lemma."+l, id)
+		}
+		for _, g := range sp.Grounds {
+			if !seenG[g] {
+				seenG[g] = true
+				union.Grounds = append(union.Grounds, g)
+			}
+			add(groundCtx[g], id)
+		}
+	}
+	res := r.run(union)
+	known := loadKnown(r.verif)
+	isKnown := map[string]bool{}
+	for _, k := range known.Findings {
+		isKnown[k.Obligation] = true
+	}
+	fails := map[string][]string{}
+	note := func(fn, what string) {
+		ps := owner[fn]
+		if len(ps) == 0 {
+			// attribute to everything (safe side)
+			for _, id := range ids {
+				fails[id] = append(fails[id], what)
+			}
+			return
+		}
+		for id := range ps {
+			fails[id] = append(fails[id], what)
+		}
+	}
+	for _, o := range res.obls {
+		if o.OK() || isKnown[o.Name] {
+			continue
+		}
+		note(o.Func, fmt.Sprintf("%s [%s]", o.Name, o.Status))
+	}
+	for _, t := range res.translate {
+		fn := strings.SplitN(t, ":", 2)[0]
+		note(fn, "translate: "+truncate(t, 200))
+	}
+	rc := 0
+	for _, id := range ids {
+		fs := fails[id]
+		first := ""
+		if len(fs) > 0 {
+			rc = 1
+			first = fs[0]
+			if len(fs) > 1 {
+				first += " | " + fs[1]
+			}
+		}
+		fmt.Printf("MULTI %s violations=%d %s\n", id, len(fs), first)
+	}
+	fmt.Printf("multi: obligations=%d wall=%.1fs\n", len(res.obls), time.Since(r.t0).Seconds())
+	return rc
 }
